@@ -511,7 +511,7 @@ func R10() Rule {
 		nDecode, nStores := 0, 0
 		for _, fn := range P.SrcFuncs(core.PkgGcsemu) {
 			if r := core.Root(fn); r.Signature.Recv() != nil {
-				if nm := core.NamedOf(r.Signature.Recv().Type()); nm != nil && (nm.Obj().Name() == "memstore" || nm.Obj().Name() == "filestore") {
+				if nm := core.NamedOf(r.Signature.Recv().Type()); nm != nil && (core.TName(nm) == "memstore" || core.TName(nm) == "filestore") {
 					continue
 				}
 			}
@@ -860,9 +860,9 @@ func R29() Rule {
 					c.Check(allowed, "R29", "who-may-call/Store.Add/"+root, ci.Instr.Pos(), "the verified write path", "Store.Add is called from "+root+", bypassing the MD5-verified, precondition-checked write in finishUpload / finishCompose")
 				}
 				if ci.Static != nil && ci.Static.Name() == "Add" && ci.Static.Signature.Recv() != nil {
-					if nm := core.NamedOf(ci.Static.Signature.Recv().Type()); nm != nil && (nm.Obj().Name() == "memstore" || nm.Obj().Name() == "filestore") {
+					if nm := core.NamedOf(ci.Static.Signature.Recv().Type()); nm != nil && (core.TName(nm) == "memstore" || core.TName(nm) == "filestore") {
 						n++
-						c.Check(strings.HasSuffix(root, ").Copy"), "R29", "who-may-call/"+nm.Obj().Name()+".Add/"+root, ci.Instr.Pos(), "the store's own Copy", "a store's Add is called directly from "+root)
+						c.Check(strings.HasSuffix(root, ").Copy"), "R29", "who-may-call/"+core.TName(nm)+".Add/"+root, ci.Instr.Pos(), "the store's own Copy", "a store's Add is called directly from "+root)
 					}
 				}
 			}
